@@ -97,6 +97,14 @@ def catalog():
             "setup": [build(layers), sub("S"), ["sleep", 0.01], ["runall", "ex"], ["sleep", 0.25]],
             "threads": [[["cancel", "S"], ["sleep", 0.25], ["cancel", "S"], ["state", "S"]]],
             "settle": 2, "final": [["state", "S"]]}
+    # retry on RESULTS with a policy that takes time to decide: the cancel arrives while should_retry() is looking at a
+    # SUCCESSFUL attempt; it is refused, stops further retries, and the future keeps that attempt's value
+    slowpol = {"kind": "retry", "tap": True, "policy": {"type": "script", "should": [["slow", 0.5, True], False], "sleep": [0.25]}}
+    out["retry/cancel-while-slow-policy-judges-a-successful-attempt"] = {
+        "own_value": True,
+        "setup": [build([slowpol]), sub("S", [["tag"], ["tag"]]), ["sleep", 0.01]],
+        "threads": [[["sleep", 0.1], ["run", "ex", 0]], [["sleep", 0.3], ["cancel", "S"], ["state", "S"]]],
+        "settle": 3, "final": [["runall", "ex"], ["sleep", 1.0], ["state", "S"]]}
     combs = {
         "f_zip": ["f_zip", ["src", "a"], ["src", "b"], ["src", "c"]], "f_or": ["f_or", ["src", "a"], ["src", "b"], ["src", "c"]],
         "f_and": ["f_and", ["src", "a"], ["src", "b"], ["src", "c"]], "f_sequence": ["f_sequence", ["src", "a"], ["src", "b"], ["src", "c"]],
@@ -246,6 +254,12 @@ def evaluate(case):
                         bad("cancel-not-forwarded-to-pending-delegate", fut=f, job=jname, result=res)
                     elif res is not True:
                         bad("cancel-false-although-delegate-cancelled", fut=f, job=jname)
+    if case.get("own_value") or prog.get("own_value"):
+        # no layer above the retry executor transforms values: a future that ends with a value carries one its callable returned
+        own = [ev[4]["value"] for ev in s.events if ev[3] == "ret" and ev[4]["fn"] == "S.fn"]
+        fin = samples.get("S", [])
+        if fin and fin[-1][1]["done"] and not fin[-1][1]["cancelled"] and "exc" not in fin[-1][1] and fin[-1][1].get("value") not in own:
+            bad("value-is-not-one-the-callable-returned", final=fin[-1][1], returned=own)
     # combinators: fan-out
     if case.get("comb"):
         entry = case.get("entry", "")
